@@ -61,6 +61,9 @@ typedef struct {
 	long got, sent;
 	int bad, shut, held;
 	int expect_close;    /* cb_alloc failed for this connection: the next unknown close is its fd */
+	int oconn, oadd, ocls, orel; /* reference count as seen on entry of cb_conn / cb_add_ctx / cb_close / cb_release */
+	int post, has_post;  /* count read by a callback after the worker act it hosted */
+	int unowned;         /* a callback ran although the loop's own reference was not counted */
 } rec_t;
 
 static rec_t R[MAXC];
@@ -78,7 +81,7 @@ static volatile int g_pause_req;
 static volatile long g_activity;
 static int g_wild, g_timeout, g_maperr;
 static pthread_mutex_t g_mu = PTHREAD_MUTEX_INITIALIZER;   /* protects R[] against the loop thread */
-static char g_prev[MAXC][96];
+static char g_prev[MAXC][128];
 static unsigned g_uniq;
 
 static unsigned char pat(int c, long k) { return (unsigned char)(((long)c * 31 + k * 7 + k / 256) % 251); }
@@ -104,6 +107,70 @@ int vh_close(int fd)
 	if (r) { r->nfdc++; r->sfd_open = 0; }
 	pthread_mutex_unlock(&g_mu);
 	return close(fd);
+}
+
+/* ---- worker acts (main thread, or hosted by a callback on the loop thread) ---- */
+static void do_free(muggle_socket_context_t *ctx);
+static int ref_of(muggle_socket_context_t *ctx) { return (int)muggle_socket_ctx_ref_num(ctx, muggle_memory_order_relaxed); }
+
+static int worker_release(int c)      /* 0: not holding a reference */
+{
+	pthread_mutex_lock(&g_mu);
+	if (c < 0 || c >= g_n || R[c].held == 0) { pthread_mutex_unlock(&g_mu); return 0; }
+	R[c].held--;
+	muggle_socket_context_t *ctx = R[c].ctx;
+	pthread_mutex_unlock(&g_mu);
+	if (muggle_socket_ctx_ref_release(ctx) == 0) {
+		/* the documented protocol: the last owner releases user data, closes, frees */
+		pthread_mutex_lock(&g_mu); R[c].nrel++; pthread_mutex_unlock(&g_mu);
+		muggle_socket_ctx_close(ctx);
+		do_free(ctx);
+	}
+	return 1;
+}
+static void worker_retain(int c)
+{
+	if (muggle_socket_ctx_ref_retain(R[c].ctx) > 0) {
+		pthread_mutex_lock(&g_mu); R[c].held++; pthread_mutex_unlock(&g_mu);
+	}
+}
+
+enum { CB_MSG, CB_CLOSE };
+typedef struct { int armed, cb, id, act /* 0 wrel, 1 retain */, target; } hook_t;
+static hook_t H[128];
+static int g_nh;
+
+/* entry of a user callback on ctx: the loop must still own a reference of its own */
+static void observe(rec_t *r, muggle_socket_context_t *ctx, int *slot)
+{
+	int v = ref_of(ctx);
+	if (slot) *slot = v;
+	if (v - r->held < 1) r->unowned = 1;
+}
+
+/* the worker acts this callback hosts; afterwards the callback goes on using its context */
+static void fire(int cb, rec_t *r, muggle_socket_context_t *ctx)
+{
+	int id = (int)(r - R), any = 0;
+	hook_t mine[16];
+	pthread_mutex_lock(&g_mu);
+	for (int i = 0; i < g_nh && any < 16; i++)
+		if (H[i].armed && H[i].cb == cb && H[i].id == id) { H[i].armed = 0; mine[any++] = H[i]; }
+	pthread_mutex_unlock(&g_mu);
+	for (int k = 0; k < any; k++) {
+		int t = mine[k].target;
+		if (mine[k].act == 0) worker_release(t);
+		else {
+			pthread_mutex_lock(&g_mu);
+			int ok = t >= 0 && t < g_n && R[t].mem == M_LIVE && (t == id || R[t].held > 0);
+			pthread_mutex_unlock(&g_mu);
+			if (ok) worker_retain(t);
+		}
+	}
+	if (any) {
+		int v = ref_of(ctx);          /* use after free here if the hosted release freed the context */
+		pthread_mutex_lock(&g_mu); r->post = v; r->has_post = 1; pthread_mutex_unlock(&g_mu);
+	}
 }
 
 /* ---- callbacks (loop thread) ---- */
@@ -148,7 +215,7 @@ static void cb_conn(muggle_event_loop_t *ev, muggle_socket_context_t *ctx)
 	g_activity++;
 	rec_t *r = find_live(ctx);
 	if (r) {
-		r->nconn++; r->sfd = ctx->base.fd; r->sfd_open = 1;
+		r->nconn++; r->sfd = ctx->base.fd; r->sfd_open = 1; observe(r, ctx, &r->oconn);
 		if (g_fam == 't') {          /* identity check: the accepted socket's peer is that client */
 			struct sockaddr_in a; socklen_t la = sizeof a;
 			if (getpeername(ctx->base.fd, (struct sockaddr *)&a, &la) == 0 && a.sin_port != r->cport) g_maperr++;
@@ -160,21 +227,22 @@ static void cb_add(muggle_event_loop_t *ev, muggle_socket_context_t *ctx)
 {
 	(void)ev;
 	pthread_mutex_lock(&g_mu); g_activity++;
-	rec_t *r = find_live(ctx); if (r) r->nadd++; else g_wild++;
+	rec_t *r = find_live(ctx); if (r) { r->nadd++; observe(r, ctx, &r->oadd); } else g_wild++;
 	pthread_mutex_unlock(&g_mu);
 }
 static void cb_close(muggle_event_loop_t *ev, muggle_socket_context_t *ctx)
 {
 	(void)ev;
 	pthread_mutex_lock(&g_mu); g_activity++;
-	rec_t *r = find_live(ctx); if (r) r->ncls++; else g_wild++;
+	rec_t *r = find_live(ctx); if (r) { r->ncls++; observe(r, ctx, &r->ocls); } else g_wild++;
 	pthread_mutex_unlock(&g_mu);
+	if (r) fire(CB_CLOSE, r, ctx);
 }
 static void cb_release(muggle_event_loop_t *ev, muggle_socket_context_t *ctx)
 {
 	(void)ev;
 	pthread_mutex_lock(&g_mu); g_activity++;
-	rec_t *r = find_live(ctx); if (r) r->nrel++; else g_wild++;
+	rec_t *r = find_live(ctx); if (r) { r->nrel++; r->orel = ref_of(ctx); } else g_wild++;
 	pthread_mutex_unlock(&g_mu);
 }
 static void cb_msg(muggle_event_loop_t *ev, muggle_socket_context_t *ctx)
@@ -184,6 +252,7 @@ static void cb_msg(muggle_event_loop_t *ev, muggle_socket_context_t *ctx)
 	int rd = g_rd > (int)sizeof buf ? (int)sizeof buf : g_rd;
 	pthread_mutex_lock(&g_mu); g_activity++;
 	rec_t *r = find_live(ctx);
+	if (r) observe(r, ctx, NULL);
 	pthread_mutex_unlock(&g_mu);
 	if (!r) { __atomic_add_fetch(&g_wild, 1, __ATOMIC_RELAXED); }
 	int n;
@@ -195,6 +264,7 @@ static void cb_msg(muggle_event_loop_t *ev, muggle_socket_context_t *ctx)
 		r->got += n;
 		pthread_mutex_unlock(&g_mu);
 	}
+	if (r) fire(CB_MSG, r, ctx);
 }
 static void cb_wake(muggle_event_loop_t *ev)
 {
@@ -218,11 +288,12 @@ static int sem_wait_to(sem_t *s, int sec)
 }
 static void do_park(void)
 {
+	if (g_timeout) return;            /* the loop is gone or stuck: reported as TIMEOUT, do not wait again */
 	__atomic_store_n(&g_pause_req, 1, __ATOMIC_RELEASE);
 	muggle_evloop_wakeup(g_evloop);
 	if (sem_wait_to(&g_sem_parked, 20) != 0) g_timeout++;
 }
-static void do_unpark(void) { sem_post(&g_sem_resume); }
+static void do_unpark(void) { if (!g_timeout) sem_post(&g_sem_resume); }
 static long activity(void) { pthread_mutex_lock(&g_mu); long a = g_activity; pthread_mutex_unlock(&g_mu); return a; }
 /* Quiescence. A park happens inside cb_wake, once per dispatch round at most. The round of the
  * first park may have taken its readiness snapshot before the main thread's last act (another
@@ -250,7 +321,8 @@ static void stop_loop(void)
 {
 	if (g_started && !g_exited) {
 		muggle_evloop_exit(g_evloop);
-		if (g_parked) { do_unpark(); g_parked = 0; }
+		__atomic_store_n(&g_pause_req, 0, __ATOMIC_RELEASE);
+		if (g_parked || g_timeout) { sem_post(&g_sem_resume); g_parked = 0; }
 		pthread_join(g_thr, NULL);
 		g_exited = 1;
 	}
@@ -275,6 +347,7 @@ static void vh_reset(void)
 	g_n = 0; g_started = g_exited = g_parked = 0; g_nconn_ids = g_alloc_calls = 0;
 	g_pause_req = 0; g_activity = 0; g_wild = g_timeout = g_maperr = 0; g_lfd = -1; g_evloop = NULL;
 	memset(g_prev, 0, sizeof g_prev);
+	memset(H, 0, sizeof H); g_nh = 0;
 }
 
 static void snap(int i, char *out, size_t n)
@@ -282,9 +355,12 @@ static void snap(int i, char *out, size_t n)
 	rec_t *r = &R[i];
 	char ref[16] = "-";
 	if (r->mem == M_LIVE) snprintf(ref, sizeof ref, "%d", (int)__atomic_load_n(&r->ctx->base.ref_cnt, __ATOMIC_SEQ_CST));
-	snprintf(out, n, "c%d:%c r%s k%d a%d x%d l%d d%d f%d g%ld", i,
+	char post[16] = "-";
+	if (r->has_post) snprintf(post, sizeof post, "%d", r->post);
+	snprintf(out, n, "c%d:%c r%s k%d a%d x%d l%d d%d f%d g%ld o%d.%d.%d.%d h%s", i,
 		r->mem == M_LIVE ? 'L' : r->mem == M_FREED ? 'F' : '-', ref,
-		r->nconn, r->nadd, r->ncls, r->nrel, r->nfdc, r->nfree, r->got);
+		r->nconn, r->nadd, r->ncls, r->nrel, r->nfdc, r->nfree, r->got,
+		r->oconn, r->oadd, r->ocls, r->orel, post);
 }
 
 static int new_listener(void)
@@ -449,21 +525,25 @@ static void vh_op(int argc, char **argv)
 	if (!strcmp(op, "retain") && argc == 2) {
 		int c = atoi(argv[1]);
 		if (!can_touch(c)) { printf("bad-op\n"); return; }
-		if (muggle_socket_ctx_ref_retain(R[c].ctx) > 0) R[c].held++;
+		worker_retain(c);
 		printf("ok\n");
 		return;
 	}
 	if (!strcmp(op, "wrel") && argc == 2) {
 		int c = atoi(argv[1]);
-		if (c < 0 || c >= g_n || R[c].held == 0) { printf("bad-op\n"); return; }
-		R[c].held--;
-		muggle_socket_context_t *ctx = R[c].ctx;
-		if (muggle_socket_ctx_ref_release(ctx) == 0) {
-			/* the documented protocol: the last owner releases user data, closes, frees */
-			pthread_mutex_lock(&g_mu); R[c].nrel++; pthread_mutex_unlock(&g_mu);
-			muggle_socket_ctx_close(ctx);
-			do_free(ctx);
-		}
+		if (!worker_release(c)) { printf("bad-op\n"); return; }
+		printf("ok\n");
+		return;
+	}
+	if (!strcmp(op, "incb") && argc == 5) {
+		int cb = !strcmp(argv[1], "msg") ? CB_MSG : !strcmp(argv[1], "close") ? CB_CLOSE : -1;
+		int act = !strcmp(argv[3], "wrel") ? 0 : !strcmp(argv[3], "retain") ? 1 : -1;
+		int id = atoi(argv[2]), t = atoi(argv[4]);
+		if (cb < 0 || act < 0 || id <= 0 || id >= 256 || t < 0 || t >= 256 || g_nh >= 128) { printf("bad-op\n"); return; }
+		pthread_mutex_lock(&g_mu);
+		H[g_nh].cb = cb; H[g_nh].id = id; H[g_nh].act = act; H[g_nh].target = t; H[g_nh].armed = 1;
+		__atomic_store_n(&g_nh, g_nh + 1, __ATOMIC_RELEASE);
+		pthread_mutex_unlock(&g_mu);
 		printf("ok\n");
 		return;
 	}
@@ -484,7 +564,7 @@ static void vh_op(int argc, char **argv)
 		pthread_mutex_lock(&g_mu);
 		int any = 0;
 		for (int i = 0; i < g_n; i++) {
-			char cur[96]; snap(i, cur, sizeof cur);
+			char cur[128]; snap(i, cur, sizeof cur);
 			if (strcmp(cur, g_prev[i])) { printf("%s%s", any ? " " : "", cur); any = 1; strcpy(g_prev[i], cur); }
 		}
 		pthread_mutex_unlock(&g_mu);
@@ -499,7 +579,7 @@ static void vh_op(int argc, char **argv)
 		return;
 	}
 	if (!strcmp(op, "end") && argc == 1) {
-		char leaks[1200] = "", multi[1200] = "", bad[1200] = "", lost[1200] = "", fdl[1200] = "";
+		char leaks[1200] = "", multi[1200] = "", bad[1200] = "", lost[1200] = "", fdl[1200] = "", uno[1200] = "";
 		pthread_mutex_lock(&g_mu);
 		for (int i = 0; i < g_n; i++) {
 			rec_t *r = &R[i]; char t[16]; snprintf(t, sizeof t, "%d", i);
@@ -510,10 +590,12 @@ static void vh_op(int argc, char **argv)
 			if (r->ncls == 1 && !r->shut && r->got != r->sent) ADD(lost);
 			/* descriptor of a context that is gone (or was never created) still open */
 			if ((r->mem == M_FREED && r->sfd_open) || r->expect_close) ADD(fdl);
+			if (r->unowned) ADD(uno);
 		}
 		pthread_mutex_unlock(&g_mu);
-		printf("end exited=%d leaks=%s multi=%s bad=%s lost=%s fdl=%s wild=%d\n", g_exited,
+		printf("end exited=%d leaks=%s multi=%s bad=%s lost=%s fdl=%s unowned=%s wild=%d\n", g_exited,
 			*leaks ? leaks : "-", *multi ? multi : "-", *bad ? bad : "-", *lost ? lost : "-", *fdl ? fdl : "-",
+			*uno ? uno : "-",
 			g_wild + g_maperr + g_timeout);
 		return;
 	}
